@@ -7,7 +7,7 @@ from ..core.tree import AnalysisError
 from ..core.astutil import src, short
 from ..core.constfold import EnumClass, RegexConst
 from .absint import (AV, TOP, NONE, BOOL, NUM, Piece, lit, str_av, const_av, join, join_all, _cap, MUTATORS, PURE_STR,
-                     BOOL_STR, NONDET)
+                     BOOL_STR, NONDET, PROCSTATE)
 
 TAG = lambda regions=("F",): AV(kinds=["ext"], tag="tag", regions=regions)
 DOCSTR = lambda: AV(kinds=["str"], pieces=[Piece("data", "doc", (), None, None)])
@@ -174,6 +174,9 @@ def external(I, name, args, kwargs, st, node):
     last = name.split(".")[-1]
     if name.startswith("builtins.") and a0 is not None:
         return method(I, a0, last, args[1:], kwargs, st, node)
+    if name in PROCSTATE:
+        I.emit("procstate", name, None, node)
+        return TOP
     if name in NONDET or last in ("urandom",):
         I.emit("nondet", name, None, node)
         return TOP
